@@ -462,20 +462,41 @@ class Gen:
                     parts.append('#[verifier::external_body]\npub broadcast proof fn %s(s: %s) ensures typed(#[trigger] s.%s) {}'
                                  % (nm, ms.group(1), fm.group(1)))
                     typed_ax.append(nm)
-        for tpath in unit.types:
-            pass
         self._typed = False
-        if typed_ax and not unit.consts:
-            parts.append('pub broadcast group typed_fields { %s }' % ', '.join(typed_ax))
-            self._typed = True
         self._const_names = []
-        for cpath in unit.consts:
+        # crate-level scalar f64 consts referenced by the proved functions are pulled in automatically (rule R9c)
+        consts = list(unit.consts)
+        for f in unit.prove:
+            try:
+                fit, _ = self.crate.find(f.path)
+            except KeyError:
+                continue
+            parts_ = split_path(f.path)
+            mods = []
+            for pp in parts_:
+                if pp.startswith('{'):
+                    break
+                mods.append(pp)
+            mods = mods[:-1] if not any(x.startswith('{') for x in parts_) else mods
+            btxt = self.crate.m[fit.body_open:fit.body_close]
+            for tok in sorted(set(re.findall(r'(?<![A-Za-z0-9_:])[A-Z][A-Z0-9_]{2,}(?![A-Za-z0-9_(!])', btxt))):
+                cpath = '::'.join(mods + [tok])
+                if cpath in consts:
+                    continue
+                try:
+                    cit, _ = self.crate.find(cpath)
+                except KeyError:
+                    continue
+                ctxt = ' '.join(self.crate.src[cit.start:cit.end].split())
+                if cit.kind == 'const' and re.search(r'const\s+\w+\s*:\s*f64\s*=', ctxt):
+                    consts.append(cpath)
+        for cpath in consts:
             ctext, cname = self.const_text(cpath)
             parts.append('//@item %s' % cpath)
             parts.append(ctext)
             typed_ax.append('ax_const_%s' % cname)
             self._const_names.append(cname)
-        if typed_ax and unit.consts and not self._typed:
+        if typed_ax:
             parts.append('pub broadcast group typed_fields { %s }' % ', '.join(typed_ax))
             self._typed = True
         parts.append(unit.type_spec)
